@@ -152,6 +152,15 @@ def must_refuse(ctx, H, text, what, kind, enc="ascii"):
 
 
 def corruptions(ctx, H, rng, version1, version2):
+    # the uncorrupted templates are read FIRST (and again at the end): a corrupted header must be refused on its own demerits, also
+    # when the header it was derived from has just been accepted in this process
+    for text in (v1_text(v1_lines(version1)), v1_text(v1_lines(version1), "\n"), v2_text(v2_attrs(version2)), v2_text(v2_attrs(version2), "'")):
+        try:
+            H.parse_header(io.BytesIO((text + BODY).encode("ascii")))
+            (H.OFXHeaderV1 if text.startswith("OFXHEADER") else H.OFXHeaderV2).parse(text)
+            ctx.count("templates_accepted_first")
+        except Exception:  # noqa: judged at the end
+            pass
     long37 = "".join(rng.choice(UIDCHARS) for _ in range(37))
     long60 = "u" * 60
     # ---- v1 ----
